@@ -310,7 +310,7 @@ def check(rec, kind, idx, rng, tier):
         else:
             rec.ok('state_tables_unchanged')
     pay = dict(sequence=seq, threads_in_sequence=threads0, mode=rec.mode)
-    if idx in (0, 1):
+    if len(rec.samples) < 1:
         rec.sample(dict(sequence=seq[:12], note='spec = function|variant|dtype|dask'))
     for pos, s, ch in state_changes:
         rec.cls('witness.module_state_changed_after_call'); rec.add('witness.changed_state', '%s after %s' % (ch, s.split('|')[0]))
